@@ -230,7 +230,7 @@ def _own_root(ls, p, c):
     thr = c.get("thr", 0.1)
     meps = c.get("meps", 1e-6)
     floor = 1e-25 if c.get("root") == "newton" else 1e-6
-    u = 2.0 ** -53 if c.get("x64") else 2.0 ** -24
+    u = 2.0 ** -24          # the stored root is float32 even when the routine ran in float64 (x64)
     for k, (s_, x) in enumerate(zip(ls["stats"], ls["pre"])):
         e = float(ls["err"][k])
         s_ = np.asarray(s_, np.float64)
@@ -241,11 +241,15 @@ def _own_root(ls, p, c):
         w = np.linalg.eigvalsh((s_ + s_.T) / 2)
         lmax = max(float(w[-1]), 0.0)
         r = int(ls["retries"][k]) - 1 if (n > 1 and ls["retries"][k] > 0) else 0
-        ridge = meps * max(lmax, floor) * 10.0 ** r
+        # the ridge the routine really used: eps * max(max_ev, floor) with ITS power-iteration estimate of max_ev (reported for the
+        # Newton path; it can be below lambda_max by a fraction of a percent when the top eigenvalues are close)
+        mev = float(ls["maxev"][k]) if (len(ls.get("maxev", [])) > k and ls["maxev"][k] > 0) else lmax
+        ridge = meps * max(mev, floor) * 10.0 ** r
         ks = (lmax + ridge) / (max(float(w[0]), 0.0) + ridge) if lmax > 0 else 1.0
         bound = max(20 * e, 512 * u * ks, 1e-3)
         if bound > 0.25:
             continue
+        ls["ownroot_conclusive"] = ls.get("ownroot_conclusive", 0) + 1
         res = float(np.max(np.abs(np.linalg.matrix_power(x, p) @ (s_ + ridge * np.eye(n)) - np.eye(n))))
         if not res <= bound:
             bad.append({"k": k, "residual": res, "bound": bound, "size": n})
@@ -263,8 +267,7 @@ def _collect_runs(rec, run_out, tag):
             for b in ls.get("ownroot_bad", [])[:2]:
                 rec["fails"].append({"what": "DS pmap: a stored preconditioner is not the inverse root of its own statistic (slot mix-up)",
                                      "run": tag, "leaf": n, "t": t, **b})
-            if "ownroot_bad" in ls:
-                nconcl += len(ls["stats"])
+            nconcl += ls.get("ownroot_conclusive", 0)
     rec["ownroot_checked"] = rec.get("ownroot_checked", 0) + nconcl
 
 
@@ -1072,7 +1075,7 @@ def gen_tasks(tier, seed, thr, cut):
         base = {"seed": rng.randrange(1 << 30), "root": root, "T": rng.choice([2, 3]), "beta2": rng.choice([1.0, 0.9, 0.999]),
                 "x64": x64, "thr": thr, "meps": rng.choice([1e-6, 1e-3]), "modes": variant}
         if variant == "pmap":
-            base["meps"] = 1e-3 if not x64 else rng.choice([1e-6, 1e-3])    # keeps the own-root oracle conclusive in float32
+            base["meps"] = rng.choice([1e-3, 1e-2])    # kS <= 1e3: keeps the own-root oracle conclusive (stored roots are float32)
         if kind == "ds_blocks":
             if variant == "comp":
                 block = rng.choice([6, 7, 8])
